@@ -53,27 +53,30 @@ var Patterns = []string{
 
 // Opts steers the random schema generator.
 type Opts struct {
-	MaxDepth   int
-	Hazard     bool // allow triggers of recorded defects
-	NoFormats  bool
-	NoEnums    bool
-	NoDefaults bool
-	NoAddProps bool
-	NoNullable bool
-	NoRefs     bool
-	NoCompose  bool // allOf/anyOf
-	NoNestArr  bool
-	IntLimits  bool               // use 8/16/32/64-bit limits as integer bounds
-	Descs      bool               // attach descriptions/titles
-	YAMLSafe   bool               // avoid values that are hazardous under the YAML path
-	W          map[string]float64 // weight overrides by subject kind
-	PNullable  float64            // probability of making a typed subject nullable (default 0.15)
-	PDefault   float64            // probability of a default on an optional property (default 0.25)
-	PAddProps  float64            // probability of additionalProperties on an object (default 0.2)
-	DescPool   []string           // description texts (with Descs)
-	Titles     []string           // title texts
-	Names      []string           // property-name pool (default: plain ASCII names)
-	AnyBranch  bool               // anyOf/allOf branches may also be map objects, arrays, primitives or null
+	MaxDepth     int
+	Hazard       bool // allow triggers of recorded defects
+	NoFormats    bool
+	NoEnums      bool
+	NoDefaults   bool
+	NoAddProps   bool
+	NoNullable   bool
+	NoRefs       bool
+	NoCompose    bool // allOf/anyOf
+	NoNestArr    bool
+	IntLimits    bool               // use 8/16/32/64-bit limits as integer bounds
+	Descs        bool               // attach descriptions/titles
+	YAMLSafe     bool               // avoid values that are hazardous under the YAML path
+	W            map[string]float64 // weight overrides by subject kind
+	PNullable    float64            // probability of making a typed subject nullable (default 0.15)
+	PDefault     float64            // probability of a default on an optional property (default 0.25)
+	PAddProps    float64            // probability of additionalProperties on an object (default 0.2)
+	DescPool     []string           // description texts (with Descs)
+	Titles       []string           // title texts
+	Names        []string           // property-name pool (default: plain ASCII names)
+	AnyBranch    bool               // anyOf/allOf branches may also be map objects, arrays, primitives or null
+	AddPropsTrue bool               // objects may say additionalProperties: true
+	NullType     bool               // properties/items of type "null"
+	RootKinds    bool               // the root may be an array, a scalar or an enum instead of an object
 }
 
 // Gen is a random schema generator.
@@ -99,6 +102,24 @@ func (g *Gen) Root() *Schema {
 	g.defs = nil
 	g.nDef = 0
 	s := g.Object(0, true)
+	if g.O.RootKinds && g.R.Chance(0.12) {
+		switch g.R.IntN(5) {
+		case 0:
+			s = &Schema{Types: []string{"array"}, Items: g.Object(1, false), MinItems: g.R.IntN(2)}
+		case 1:
+			s = g.String()
+			s.Format = ""
+		case 2:
+			s = g.Integer()
+		case 3:
+			// a root schema without "type" emits no code at all (documented behaviour): only typed enums at the root
+			if e := g.Enum(); len(e.Types) == 1 {
+				s = e
+			}
+		case 4:
+			s = &Schema{Types: []string{"array"}, Items: g.String()}
+		}
+	}
 	s.Defs = g.defs
 	if len(s.Defs) > 0 && g.R.Chance(0.3) {
 		s.DefsKey = "definitions"
@@ -151,6 +172,9 @@ func (g *Gen) Subject(depth int) *Schema {
 		s = g.Enum()
 	case 7:
 		s = &Schema{}
+		if g.O.NullType && r.Chance(0.4) {
+			s = &Schema{Types: []string{"null"}}
+		}
 	case 8:
 		return g.RefTo(g.defSubject(depth))
 	case 9:
@@ -480,6 +504,8 @@ func (g *Gen) Object(depth int, root bool) *Schema {
 		case 5:
 			s.AddProps = &Schema{Types: []string{"array"}, Items: &Schema{}}
 		}
+	} else if g.O.AddPropsTrue && r.Chance(0.15) {
+		s.AddPropsBool = Bp(true)
 	}
 	return s
 }
